@@ -145,10 +145,17 @@ def route_case(ctx, case):
         srvs.append(st_srv)
         world.servers = [st_srv, 'refuse']
     final_calls = []
+    conn_box = [None]
     final_exc = CLASSES[case.get('final_new', 'C')]('raised by final')
 
     def final_fn(exc, exc_info):
         final_calls.append((exc, exc_info[1] is exc))
+        if case.get('final_oneshot') and len(final_calls) == 1:
+            # a one-shot final handler: it uninstalls itself while it runs.
+            # It was configured when the fault occurred and it has run, so
+            # this fault is not re-raised from the thread
+            conn_box[0].handle_exception = None
+            ctx.label('final_handler_uninstalls_itself')
         if final == 'raise':
             raise final_exc
     fkw = {'none': None, 'false': False, 'return': final_fn,
@@ -178,6 +185,7 @@ def route_case(ctx, case):
         conn = Connection('localhost', 25565, username='u',
                           allowed_versions=allowed,
                           handle_exception=fkw, handle_exit=on_exit, **ckw)
+        conn_box[0] = conn
 
         # a second Connection object that is never connected: handlers and
         # the final handler registered on it belong to it alone
@@ -458,6 +466,7 @@ def case_strategy():
         'version': st.sampled_from([757, 757, 340, 47]),
         'decorator': st.booleans(),
         'final_falsy': st.sampled_from([False, False, True]),
+        'final_oneshot': st.sampled_from([False, False, True]),
         'reset': st.sampled_from([False, False, True])})
 
 
@@ -530,6 +539,12 @@ def t_origins(ctx):
                         'final': final, 'final_new': 'EOFError',
                         'compress': None, 'version': 757,
                         'final_falsy': True}))
+                if final in ('return', 'raise'):
+                    route_case(ctx, fix_case({
+                        'origin': origin, 'exc': 'B', 'chain': chain,
+                        'final': final, 'final_new': 'EOFError',
+                        'compress': None, 'version': 757,
+                        'final_oneshot': True}))
                 if origin in ('listener', 'early_listener'):
                     route_case(ctx, fix_case({
                         'origin': origin, 'exc': 'B', 'chain': chain,
